@@ -9,7 +9,7 @@ import ast
 from typing import Dict, List, Optional
 
 from sa.consteval import fold_class
-from sa.kernels import MODULE, Kernel, extract
+from sa.kernels import MODULE, Kernel, extract, method_name
 from sa.loader import AnalysisError, Unsupported, norm_text
 from sa.report import where
 
@@ -170,6 +170,104 @@ def sibling_tuple(k: Kernel):
     return (r['freqs_left'], r['category_axis'], r['props_weight_partials'], r['outer_axis'], r['root_is_last_postorder_node'])
 
 
+# ---------------------------------------------------------------------------
+# C01.B — assembly of the per-branch quantities, and C01.W — pattern compression keeps every column
+# ---------------------------------------------------------------------------
+def _strip_shape_calls(e):
+    while isinstance(e, ast.Call) and isinstance(e.func, ast.Attribute) and e.func.attr in ('expand', 'reshape', 'view', 'unsqueeze', 'contiguous', 'clone'):
+        e = e.func.value
+    return e
+
+
+def check_assembly(ctx, rep):
+    cls = ctx.classes.get(f"{MODULE}.TreeLikelihoodModel")
+    r = cls.resolve('_call') if cls else None
+    if r is None:
+        raise Unsupported(None, 'TreeLikelihoodModel._call not found')
+    fn = r[1]
+    W = where(cls.module, fn)
+    q = lambda e: ast.unparse(e)
+    bl_names = {st.targets[0].id for st in ast.walk(fn) if isinstance(st, ast.Assign) and isinstance(st.targets[0], ast.Name)
+                and 'tree_model.branch_lengths()' in q(st.value)}
+    # the branch of `if self.clock_model is None`
+    ifs = [n for n in fn.body if isinstance(n, ast.If) and 'clock_model' in q(n.test)]
+    if len(ifs) != 1 or not bl_names:
+        raise Unsupported(fn, 'clock / no-clock branches of _call not recognised')
+    node = ifs[0]
+    no_clock, clock = (node.body, node.orelse) if q(node.test).endswith('is None') else (node.orelse, node.body)
+    # B1: unrooted: lengths of the 2N−3 branches in node order followed by one zero (the root's second child keeps the whole edge)
+    cats = [st for st in no_clock if isinstance(st, ast.Assign) and isinstance(st.value, ast.Call) and method_name(st.value) == 'cat']
+    verdict = None
+    facts = {}
+    if len(cats) == 1 and isinstance(cats[0].value.args[0], (ast.Tuple, ast.List)):
+        parts = cats[0].value.args[0].elts
+        axis = cats[0].value.args[1] if len(cats[0].value.args) > 1 else next((k.value for k in cats[0].value.keywords if k.arg == 'dim'), None)
+        kinds = []
+        for p_ in parts:
+            base = _strip_shape_calls(p_)
+            if isinstance(base, ast.Name) and base.id in bl_names:
+                kinds.append('lengths')
+            elif isinstance(base, ast.Subscript) and isinstance(_strip_shape_calls(base.value), ast.Name) and _strip_shape_calls(base.value).id in bl_names:
+                kinds.append('slice-of-lengths')
+            elif isinstance(p_, ast.Call) and method_name(p_) in ('zeros', 'zeros_like', 'new_zeros') and p_.args and q(p_.args[0]).replace(' ', '').endswith('+(1,)'):
+                kinds.append('one-zero')
+            else:
+                kinds.append('other')
+        facts = {'parts': [q(p_)[:60] for p_ in parts], 'kinds': kinds, 'axis': q(axis) if axis is not None else None}
+        if kinds == ['lengths', 'one-zero'] and axis is not None and q(axis) == '-1':
+            verdict = True
+        elif 'slice-of-lengths' in kinds or kinds == ['one-zero', 'lengths'] or kinds.count('one-zero') > 1 or (kinds == ['lengths', 'one-zero'] and (axis is None or q(axis) != '-1')):
+            verdict = False
+    key = 'TreeLikelihoodModel._call::unrooted::branch-vector-is-lengths-then-one-zero'
+    why = ("without a clock the per-node branch vector must be the tree model's branch lengths, unsliced and in their own order, followed by exactly one zero on the "
+           "last axis (node i keeps length i; the padded entry belongs to the node the root edge was merged away from): any other layout pairs lengths with the wrong nodes")
+    if verdict is None:
+        rep.undecided('C01.B', key, W, 'construction of the padded branch vector not recognised', facts)
+    else:
+        rep.check('C01.B', key, verdict, W, facts, why)
+    # B2: clock: rate × time, element-wise, same node order
+    ok = False
+    facts = {}
+    prods = [st for b in clock for st in ast.walk(b) if isinstance(st, ast.Assign) and isinstance(st.value, ast.BinOp) and isinstance(st.value.op, ast.Mult)]
+    if prods:
+        ok = True
+        for st in prods:
+            l, r_ = _strip_shape_calls(st.value.left), _strip_shape_calls(st.value.right)
+            sides = {q(l), q(r_)}
+            good = 'self.clock_model.rates' in sides and any(isinstance(x, ast.Name) and x.id in bl_names for x in (l, r_))
+            ok = ok and good
+            facts[q(st)[:80]] = good
+    rep.check('C01.B', 'TreeLikelihoodModel._call::clock::rate-times-time-per-branch', ok, W, facts,
+              "with a clock the expected substitutions on a branch are clock rate × branch duration, element-wise in node order")
+    # B3: scaled by the site rates before exponentiation
+    pt = [c for c in ast.walk(fn) if isinstance(c, ast.Call) and method_name(c) == 'p_t']
+    ok = len(pt) == 1 and isinstance(pt[0].args[0], ast.BinOp) and isinstance(pt[0].args[0].op, ast.Mult) and \
+        {q(_strip_shape_calls(pt[0].args[0].left)), q(_strip_shape_calls(pt[0].args[0].right))} == {'bls', 'rates'}
+    rep.check('C01.B', 'TreeLikelihoodModel._call::transition-matrices-of-length-times-site-rate', ok, W, {'argument': q(pt[0].args[0])[:80] if pt else None},
+              "transition matrices must be p_t(branch quantity × site-model rate)")
+
+
+def check_compress(ctx, rep):
+    m = ctx.prog.module('torchtree.evolution.site_pattern')
+    fn = m.functions.get('compress')
+    if fn is None:
+        raise Unsupported(None, 'site_pattern.compress not found')
+    W = where(m, fn)
+    q = lambda e: ast.unparse(e)
+    assigns = [st for st in ast.walk(fn) if isinstance(st, ast.Assign) and any(isinstance(t, ast.Name) and t.id == 'count_dict' for t in st.targets)]
+    all_counter = bool(assigns) and all(isinstance(st.value, ast.Call) and method_name(st.value) == 'Counter' for st in assigns)
+    mutated = [q(c)[:60] for c in ast.walk(fn) if (isinstance(c, ast.Call) and isinstance(c.func, ast.Attribute) and isinstance(c.func.value, ast.Name) and c.func.value.id == 'count_dict'
+                                                    and c.func.attr in ('pop', 'popitem', 'clear', 'update', '__delitem__'))
+               or (isinstance(c, ast.Delete) and 'count_dict' in q(c))]
+    order = [st for st in ast.walk(fn) if isinstance(st, ast.Assign) and 'count_dict' in q(st.value) and isinstance(st.targets[0], ast.Name) and st.targets[0].id != 'count_dict']
+    keys_all = any(q(st.value).replace(' ', '') in ('sorted(list(count_dict.keys()))', 'sorted(count_dict.keys())', 'sorted(count_dict)', 'list(count_dict.keys())', 'list(count_dict)') for st in order)
+    weights_from_counts = any('count_dict[' in q(st.value) for st in order)
+    rep.check('C01.W', 'compress::every-distinct-column-is-kept-with-its-count', all_counter and not mutated and keys_all and weights_from_counts, W,
+              {'count_dict_assignments': [q(st.value)[:60] for st in assigns], 'mutations': mutated},
+              "the site patterns must be every distinct column with its multiplicity (Counter over the columns, all keys, their counts as weights): a column that is "
+              "filtered out or re-weighted changes the product over sites")
+
+
 def run(ctx, rep):
     rep.explanation = (
         "C01.T: the alphabet tables of the nucleotide, amino-acid and codon data types are constant-folded from the class bodies and checked "
@@ -181,7 +279,9 @@ def run(ctx, rep):
     )
     rep.rule('C01.T', "tip vectors: every symbol maps to the indicator of the union of states it stands for; codon tables are self-consistent")
     rep.rule('C01.K', "pruning recurrence: child/matrix pairing, orientation, gather axis, root selection, category-weight placement, weights; sibling agreement")
-    rep.not_decided += ["numerical equality with an independent oracle", "TreeLikelihoodModel._call shape plumbing", "post-order / taxon indexing (setup_indexes)"]
+    rep.rule('C01.B', "assembly of per-branch quantities in TreeLikelihoodModel._call: lengths in node order then one zero (unrooted), rate × time (clock), × site rate")
+    rep.rule('C01.W', "pattern compression keeps every distinct column with its count")
+    rep.not_decided += ["numerical equality with an independent oracle", "broadcast shapes in TreeLikelihoodModel._call", "post-order / taxon indexing (setup_indexes)"]
     rep.assumptions += ["IUPAC nucleotide codes; B={D,N}, Z={E,Q}, X*?- = any amino acid; unknown code points mean 'any state'"]
     try:
         check_tables(ctx, rep)
@@ -192,6 +292,14 @@ def run(ctx, rep):
     except Unsupported as u:
         rep.undecided('C01.K', 'kernels', f"line {getattr(u.node, 'lineno', 0)}", str(u))
         return
+    for f, rule in ((check_assembly, 'C01.B'), (check_compress, 'C01.W')):
+        try:
+            f(ctx, rep)
+        except Unsupported as u:
+            rep.undecided(rule, f.__name__, f"line {getattr(u.node, 'lineno', 0)}", str(u))
+    # tip vectors handed to the likelihood must be the ones of *this* request (ambiguity flag, index set): no memo keyed on less
+    from props import c11
+    c11.check_memo_keys(ctx, rep, rule='C01.W', only=lambda m: m.name in ('torchtree.evolution.site_pattern', 'torchtree.evolution.alignment', 'torchtree.evolution.attribute_pattern'))
     for name, k in sorted(ks.items()):
         check_kernel(ctx, rep, name, k)
     disc = {n: sibling_tuple(k) for n, k in ks.items() if len(k.params) > 5}
